@@ -344,6 +344,10 @@ func runScenarioIn(t *testing.T, sc *Scenario, h *History) {
 		}
 
 		wg.Wait()
+		// Let whatever the actors' last actions set in motion (a cut, a close)
+		// play out before the harness itself acts again: two goroutines must
+		// never be runnable at the same fake instant.
+		sleepClass(classMain, 10*time.Second)
 
 		// Scripted tail of Accept results.
 		for k := 0; k < sc.AcceptTailTemp; k++ {
